@@ -197,7 +197,7 @@ class SubDelete(Obligation):
         m2, s2 = tracker_parts(ctx, f['outstanding'])
         log = res['log']
         mgr = fld(ctx, st.mstate.v, 'State', 'subscriptions', 'subscriptions/subscription_manager')
-        push = fld(ctx, st.pstate.v, 'PushSubscriptionsRegistryState', 'push_subscriptions')
+        push = fld_single(ctx, st.pstate.v, 'PushSubscriptionsRegistryState')
         enq = [e for e in log if e[0] == 'enqueue']
         out = [Claim('returns Ok (topic mailbox open)', res['ret'].discr == 0),
                Claim('deleted afterwards', f['deleted']),
@@ -369,7 +369,7 @@ class SubscriberHistory(Obligation):
         ctx.on_enqueue = typed_reply
         tmgr = run_to_end(ip.call_fn(ctx.fn('TopicManager', 'new'), []))
         tm_arc = ArcCell(Cell(tmgr, 'topic-manager'))
-        pstate = Cell(mk(ctx, 'PushSubscriptionsRegistryState', push_subscriptions=MapM([])), 'pstate')
+        pstate = Cell(mk_single(ctx, 'PushSubscriptionsRegistryState', MapM([])), 'pstate')
         reg = mk(ctx, 'PushSubscriptionsRegistry', state=ArcCell(Cell(LockM('push_registry.state', pstate))))
         smgr = run_to_end(ip.call_fn(ctx.fn('SubscriptionManager', 'new'), [reg]))
         sm_arc = ArcCell(Cell(smgr, 'subscription-manager'))
@@ -462,7 +462,7 @@ class ReadbackHistory(Obligation):
         ctx.on_enqueue = typed_reply
         tmgr = run_to_end(ip.call_fn(ctx.fn('TopicManager', 'new'), []))
         tm_arc = ArcCell(Cell(tmgr, 'topic-manager'))
-        pstate = Cell(mk(ctx, 'PushSubscriptionsRegistryState', push_subscriptions=MapM([])), 'pstate')
+        pstate = Cell(mk_single(ctx, 'PushSubscriptionsRegistryState', MapM([])), 'pstate')
         reg = mk(ctx, 'PushSubscriptionsRegistry', state=ArcCell(Cell(LockM('push_registry.state', pstate))))
         smgr = run_to_end(ip.call_fn(ctx.fn('SubscriptionManager', 'new'), [reg]))
         sm_arc = ArcCell(Cell(smgr, 'subscription-manager'))
